@@ -8,6 +8,6 @@ CONSTANTS
 INIT Init
 NEXT Next
 VIEW View
-INVARIANTS TypeOK QueueConsistent ByAlpn QueueBound OneServer RunningIffOpen
+INVARIANTS TypeOK QueueConsistent ByAlpn QueueBound OneServer RunningIffOpen NoHandshakeWithoutListener
 PROPERTIES FatesFinal AcceptByAlpn RefusedOnlyUnserved OverflowClosesNewcomer Fifo SiblingsSurvive CloseDrains
 CHECK_DEADLOCK FALSE
